@@ -20,6 +20,15 @@ impl MeshEdges<'_> {
         if self.boundary_loops.len() != 1 {
             return Err("Mesh must have a single boundary loop".into());
         }
+
+        // A single boundary loop does not make a disk: the mesh must also be connected and have the
+        // Euler characteristic of a disk, V - E + F = 1 (a closed component, a handle or an unused
+        // vertex changes it).
+        let euler_lhs = n_vert as u64 + self.faces().len() as u64;
+        let euler_rhs = self.edges.len() as u64 + 1;
+        if euler_lhs != euler_rhs || self.mesh().get_patches().len() != 1 {
+            return Err("Mesh must be a topological disk".into());
+        }
         let i_bound = self.boundary_loops[0].as_slice();
 
         // Get the inner vertices
